@@ -283,13 +283,14 @@ Init ==
   /\ memo = NoMemo
   /\ act = [name |-> "Init"] /\ res = [k |-> "none"]
 
-Next ==
-  \/ \E size \in 0..MaxSize :
-       \E kinds \in Seqs(Kinds, size), evs \in Seqs(EvCounts, size), revs \in Seqs(Revs, size),
-          tl \in Seqs(Lens, size), rl \in Seqs(Lens, size), src \in Sources(size) :
-         Store(size, kinds, evs, revs, tl, rl, src)
-  \/ Revert
-  \/ \E fam \in MemoFamilies : \E key \in Known(fam) : Read(fam, key)
+StoreAny ==
+  \E size \in 0..MaxSize :
+    \E kinds \in Seqs(Kinds, size), evs \in Seqs(EvCounts, size), revs \in Seqs(Revs, size),
+       tl \in Seqs(Lens, size), rl \in Seqs(Lens, size), src \in Sources(size) :
+      Store(size, kinds, evs, revs, tl, rl, src)
+ReadAny == \E fam \in MemoFamilies : \E key \in Known(fam) : Read(fam, key)
+
+Next == StoreAny \/ Revert \/ ReadAny
 
 NextR == Next \/ \E g \in BOOLEAN : Restart(g)
 
